@@ -514,33 +514,30 @@ def sym_float(x=0.0):
     return _bi.float(x)
 
 
-def sym_max(*args, **kw):
-    """max() building an If-term instead of forking (same value as builtin)."""
-    if len(args) == 1 and not kw:
+def _sym_extreme(builtin, better, args, kw):
+    """max()/min() building an If-term instead of forking (same value as the builtin); anything without symbolic
+    items goes to the builtin unchanged (an iterator argument is materialised once)"""
+    if len(args) == 1:
         items = list(args[0])
+        if kw or not any(isinstance(i, (SymInt, SymReal)) for i in items):
+            return builtin(items, **kw)
     else:
         items = list(args)
-    if kw or not any(isinstance(i, (SymInt, SymReal)) for i in items):
-        return _bi.max(*args, **kw)
+        if kw or not any(isinstance(i, (SymInt, SymReal)) for i in items):
+            return builtin(*args, **kw)
     r = _term(items[0])
     for i in items[1:]:
         ti = _term(i)
-        r = z3.If(ti > r, ti, r)
+        r = z3.If(better(ti, r), ti, r)
     return _wrap(r)
+
+
+def sym_max(*args, **kw):
+    return _sym_extreme(_bi.max, lambda a, b: a > b, args, kw)
 
 
 def sym_min(*args, **kw):
-    if len(args) == 1 and not kw:
-        items = list(args[0])
-    else:
-        items = list(args)
-    if kw or not any(isinstance(i, (SymInt, SymReal)) for i in items):
-        return _bi.min(*args, **kw)
-    r = _term(items[0])
-    for i in items[1:]:
-        ti = _term(i)
-        r = z3.If(ti < r, ti, r)
-    return _wrap(r)
+    return _sym_extreme(_bi.min, lambda a, b: a < b, args, kw)
 
 
 def term_of(x):
@@ -571,3 +568,27 @@ def holds(pc, claim, timeout_ms=60000):
     if r == z3.sat:
         return 'sat', s.model()
     return 'unknown', None
+
+
+# ---------------------------------------------------------------------------
+# placeholder tokens through argparse: independent of HOW the code under test names its type converter
+# (a module-level table with type=int evaluated at import time would not see a shadowed ``int``)
+# ---------------------------------------------------------------------------
+import argparse as _argparse
+
+_orig_get_value = _argparse.ArgumentParser._get_value
+
+
+def _get_value_with_tokens(self, action, arg_string):
+    eng = _ENGINE
+    if eng is not None and isinstance(arg_string, str) and arg_string in eng.tokens:
+        t = eng.tokens[arg_string]
+        conv = action.type
+        if conv in (_bi.int, sym_int) and t.sort() == z3.IntSort():
+            return SymInt(t)
+        if conv in (_bi.float, sym_float):
+            return SymReal(_real(t))
+    return _orig_get_value(self, action, arg_string)
+
+
+_argparse.ArgumentParser._get_value = _get_value_with_tokens
